@@ -271,7 +271,7 @@ func c14Run(r *evid.Run, tier string) {
 	os.RemoveAll(dir)
 	os.MkdirAll(dir, 0o755)
 	defer os.RemoveAll(dir)
-	rounds := Scale(map[string]int{"quick": 160, "thorough": 4000}[tier])
+	rounds := Scale(map[string]int{"quick": 160, "thorough": 1600}[tier])
 	// ---- library ----
 	logPrefix := filepath.Join(dir, "race-lib")
 	cmd := exec.Command(binPath("xvmon-race"), "child", "c14lib", strconv.FormatUint(r.Seed, 10), strconv.Itoa(rounds))
@@ -375,7 +375,7 @@ func runWithWatchdog(cmd *exec.Cmd, d time.Duration) error {
 var fileIDRe = regexp.MustCompile(`F(\d{4})_`)
 
 func c14CLI(r *evid.Run, tier, dir string) {
-	nsets := Scale(map[string]int{"quick": 6, "thorough": 120}[tier])
+	nsets := Scale(map[string]int{"quick": 6, "thorough": 40}[tier])
 	for si := 0; si < nsets; si++ {
 		g := rng.New(r.Seed, fmt.Sprintf("C14/cli/%d", si))
 		fdir := filepath.Join(dir, fmt.Sprintf("set%d", si))
